@@ -49,6 +49,88 @@ def rederive(element, charge, radical, neighbours, symbol_to_z):
             return h
     return None
 
+def admissible_h(element, charge, radical, neighbours, symbol_to_z):
+    """every implicit-hydrogen count for which the raw tables hold a state matching the environment (rederive() returns the first one)."""
+    if element.atomic_number == 1:
+        return {0}
+    total = sum(o for o, _ in neighbours)
+    have = {}
+    for k in neighbours:
+        have[k] = have.get(k, 0) + 1
+    out = set()
+    common = element._common_valences
+    if charge == 0 and not radical:
+        if common[0]:
+            v0 = common[0]
+            if 0 <= v0 - total <= v0:
+                out.add(v0 - total)
+            for v in common[1:]:
+                if total == v:
+                    out.add(0)
+        else:
+            for v in common:
+                if total == v:
+                    out.add(0)
+    for c, r, implicit, env in element._valences_exceptions:
+        if c != charge or r != radical:
+            continue
+        need = {}
+        explicit = 0
+        for b, sym in env:
+            key = (b, symbol_to_z[sym])
+            need[key] = need.get(key, 0) + 1
+            explicit += b
+        h = explicit + implicit - total
+        if implicit:
+            if not 0 <= h <= implicit:
+                continue
+        elif h != 0:
+            continue
+        if all(have.get(k, 0) >= n for k, n in need.items()):
+            out.add(h)
+    return out
+
+
+# (c) ladder model: main-group valence ladders by effective group (group number minus charge: isoelectronic shift), second period without expansion.
+LADDER_GROUP = {'B': 13, 'C': 14, 'N': 15, 'O': 16, 'F': 17, 'Si': 14, 'P': 15, 'S': 16, 'Cl': 17, 'Ge': 14, 'As': 15, 'Se': 16, 'Br': 17, 'Te': 16, 'I': 17}
+LADDER_PERIOD2 = {'B', 'C', 'N', 'O', 'F'}
+# states the ladder does not describe, reviewed by hand: the elemental state (valence 0) of B C Si Ge P S Se Te,
+# hypophosphorous acid H3PO2 = HO-P(=O)H2 (phosphorus(V) although the bond sum 3 would already be a phosphorus(III) state), As valence 0 in _common_valences
+LADDER_REVIEWED = {('B', 0, 0, 0), ('C', 0, 0, 0), ('Si', 0, 0, 0), ('Ge', 0, 0, 0), ('P', 0, 0, 0), ('S', 0, 0, 0), ('Se', 0, 0, 0), ('Te', 0, 0, 0), ('As', 0, 0, 0)}
+
+
+def ladder(symbol, charge):
+    g = LADDER_GROUP.get(symbol)
+    if g is None:
+        return None
+    g -= charge
+    if not 13 <= g <= 18:
+        return None
+    base = {13: 3, 14: 4, 15: 3, 16: 2, 17: 1, 18: 0}[g]
+    top = {13: 3, 14: 4, 15: 5, 16: 6, 17: 7, 18: 8}[g]
+    if symbol in LADDER_PERIOD2:
+        return [base]
+    return list(range(base, top + 1, 2))
+
+
+def ladder_judge(symbol, charge, radical, neighbours, h):
+    """None = not judged; True/False = the state (bond sum + h) is / is not the lowest ladder state reachable by adding hydrogens.
+    neighbours: (order, symbol-or-number) pairs; only judged when the library reports a state at all."""
+    if radical or h is None:
+        return None
+    lad = ladder(symbol, charge)
+    if lad is None:
+        return None
+    total = sum(o for o, _ in neighbours)
+    if (symbol, charge, total, h) in LADDER_REVIEWED:
+        return None
+    if symbol == 'P' and charge == 0 and h == 2 and sorted(o for o, _ in neighbours) == [1, 2]:
+        return None     # hypophosphorous acid / phosphinic acids R-P(=O)H2: reviewed
+    ok = [v for v in lad if v >= total]
+    if not ok:
+        return False
+    return h == ok[0] - total
+
 
 # (b) hand-written: symbol -> (first valence giving implicit H, higher valences that are allowed without H)
 TEXTBOOK_NEUTRAL = {
